@@ -42,7 +42,7 @@ let show (o : M.obs) : string =
   | M.OSetOpt -> "setopt"
   | M.OOutOfFuel -> "model-out-of-fuel"
 
-let run (id : string) (ops : string list) (out : out_channel) =
+let parse (ops : string list) : bool * M.skind * bool * M.item list list * M.sop list =
   let kind = ref M.SPlain and nocopy = ref false and orig = ref false in
   let hs = ref [] and cur = ref [] and script = ref [] in
   let ios = int_of_string in
@@ -73,8 +73,58 @@ let run (id : string) (ops : string list) (out : out_channel) =
     | ["setopt"; "nocopy=0"] -> script := M.SSetOpt false :: !script
     | _ -> failwith ("c16 op: " ^ s)) ops;
   let hs = Stdlib.List.rev (Stdlib.List.rev !cur :: !hs) in
-  let f = if !orig then M.run_script_orig else M.run_script in
-  let obs = f dec (nat_of_int channel_capacity) !kind !nocopy hs (Stdlib.List.rev !script) in
+  (!orig, !kind, !nocopy, hs, Stdlib.List.rev !script)
+
+let run (id : string) (ops : string list) (out : out_channel) =
+  let (orig, kind, nocopy, hs, script) = parse ops in
+  let f = if orig then M.run_script_orig else M.run_script in
+  let obs = f dec (nat_of_int channel_capacity) kind nocopy hs script in
   Stdlib.List.iteri (fun i o -> Printf.fprintf out "%s\t%d\t%s\n" id i (show o)) obs
 
 let registered = Registry.register "C16" run
+
+(* ---- extraction cross-check inside Coq (see c18.ml): run_script / run_script_orig with the same
+   decoder predicate (restated in Gallina: first byte >= 128), capacity, source kind, option,
+   histories and script, recomputed by vm_compute, must equal the obs list this runner computed. *)
+let coq_dec = "(fun d : list Z => match d with b :: _ => (128 <=? b)%Z | [] => false end)"
+let coq_kindname k = match name_of_kind k with
+  | "to" -> "KTo" | "toeof" -> "KToEof" | "eagain" -> "KEagain" | "nettemp" -> "KNetTemp" | "eintr" -> "KEintr"
+  | "tmp" -> "KTmp" | "oclosed" -> "KOsClosed" | "eof" -> "KEof" | "weof" -> "KWEof" | "ueof" -> "KUeof"
+  | "noprog" -> "KNoProg" | "cpipe" -> "KCPipe" | "sbuf" -> "KSBuf" | "ebadf" -> "KEbadf" | "pebadf" -> "KPEbadf"
+  | "cfile" -> "KCFile" | s -> failwith s
+let coq_ci (c : M.cinfo) = Printf.sprintf "(mkci %s %s %s %s)" (coq_z c.M.ci_ts) (coq_z c.M.ci_cap) (coq_z c.M.ci_len) (coq_z c.M.ci_if)
+let coq_item = function
+  | M.IPkt (d, c) -> Printf.sprintf "IPkt %s %s" (coq_zlist d) (coq_ci c)
+  | M.IErr k -> "IErr " ^ coq_kindname k
+let coq_sop = function
+  | M.SNext -> "SNext" | M.SStart -> "SStart" | M.SRestart -> "SRestart" | M.SGrant n -> "SGrant " ^ coq_nat n
+  | M.SGrantAll -> "SGrantAll" | M.SRecv n -> "SRecv " ^ coq_nat n | M.SCancel -> "SCancel" | M.SFin -> "SFin"
+  | M.SFcan n -> "SFcan " ^ coq_nat n | M.SSetOpt b -> "SSetOpt " ^ coq_bool b
+let coq_pobs (o : M.pobs) = Printf.sprintf "(mkpobs %s %s %s)" (coq_zlist o.M.po_data) (coq_ci o.M.po_ci) (coq_bool o.M.po_trunc)
+let coq_obs = function
+  | M.ONextOk p -> "ONextOk " ^ coq_pobs p
+  | M.ONextErr k -> "ONextErr " ^ coq_kindname k
+  | M.ONextSkip -> "ONextSkip"
+  | M.OStart ok -> "OStart " ^ coq_bool ok
+  | M.ORestart ok -> "ORestart " ^ coq_bool ok
+  | M.ONoStart -> "ONoStart"
+  | M.OSync (r, l) -> Printf.sprintf "OSync %s %s" (coq_nat r) (coq_nat l)
+  | M.ORecv (ps, cl, r, l) -> Printf.sprintf "ORecv %s %s %s %s" (coq_list coq_pobs ps) (coq_bool cl) (coq_nat r) (coq_nat l)
+  | M.OFin (ps, cl, r, g, fin) ->
+    Printf.sprintf "OFin %s %s %s %s %s" (coq_list coq_pobs ps) (coq_bool cl) (coq_nat r) (coq_nat g) (coq_list coq_zlist fin)
+  | M.OFcan (cl, g) -> Printf.sprintf "OFcan %s %s" (coq_bool cl) (coq_nat g)
+  | M.OSetOpt -> "OSetOpt"
+  | M.OOutOfFuel -> "OOutOfFuel"
+let to_coq (idx : int) (ops : string list) (out : out_channel) =
+  let (orig, kind, nocopy, hs, script) = parse ops in
+  let nbytes = Stdlib.List.fold_left (fun a h -> Stdlib.List.fold_left (fun a it -> match it with M.IPkt (d, _) -> a + Stdlib.List.length d | _ -> a) a h) 0 hs in
+  if nbytes <= 400 then begin
+    let f = if orig then M.run_script_orig else M.run_script in
+    let obs = f dec (nat_of_int channel_capacity) kind nocopy hs script in
+    coq_example out idx
+      (Printf.sprintf "%s %s %s %s %s\n    %s\n    %s" (if orig then "run_script_orig" else "run_script") coq_dec
+         (coq_nat (nat_of_int channel_capacity)) (match kind with M.SPlain -> "SPlain" | M.SZero -> "SZero" | M.SConcat -> "SConcat")
+         (coq_bool nocopy) (coq_list (coq_list coq_item) hs) (coq_list coq_sop script))
+      ("[" ^ String.concat ";\n     " (Stdlib.List.map coq_obs obs) ^ "]")
+  end
+let registered_coq = Registry.register_coq "C16" ("From GP Require Import Base C16Model.\n", to_coq)
